@@ -124,7 +124,12 @@ CHECKS = {
         'Theorems unbounded in counts, sizes and witness items: spec_tx_codec (parse (ser t ++ rest) = (t, rest)), prefix-freeness, lib_roundtrip, '
         'lib_txid_exact, lib_raw_is_spec, api_bytes_read_back, spec_block_codec, header_codec, target_exact. Tie: generated well-formed transactions and '
         'blocks across CompactSize boundaries through Transaction.parse(raw).raw(), txid, API-built transactions read by the extracted spec parser, '
-        'Block.parse_bytes/serialize and parse_transactions_dict; independent Python codec as property-level oracle.',
+        'Block.parse_bytes/serialize and parse_transactions_dict; independent Python codec as property-level oracle.'
+        ' Rounds 2-3: sessions of reader calls on ONE Block object (block_reader_session_exact, block_reader_delivers_prefix, block_reader_serialize_complete, dict_reader_lists_rest), '
+        'the script layer in strict / lenient mode on key- and signature-shaped pushes that are not keys / signatures (Model/TxStrict.v on the C18 parser and C13 DER models: '
+        'strict_clean_accepted, lenient_refusal, lib_roundtrip_script_layer), the signed SetCompact target (target_signed_exact), wire and Block.target source ties. Tie: bsess requests '
+        '(four entry points, limits below/at/above the count), shaped-data stream in 11 script positions, 65534/65535/65536-byte scripts; two further known findings '
+        '(strict_refuses_signature_shaped, multisig_count_mismatch).',
    design_ref='DESIGN.md section 6 C06, section 9',
    note='Partial: the script layer (Script.parse, Input.update_scripts re-building unlocking scripts) is treated as the identity on bytes and checked by '
         'correspondence only; readers_agree for the two block readers is not a theorem. lib_roundtrip is proved under the guard quirk_free; each excluded '
